@@ -18,7 +18,7 @@ func init() { vh.Register("C14", Run) }
 
 // Case is the replayable form of one check.
 type Case struct {
-	Kind string `json:"kind"`           // bytes | prim | wire | wiretree | ser | json | known
+	Kind string `json:"kind"`           // bytes | prim | wire | wiretree | ser | json | jsonnum | known
 	Hex  string `json:"hex,omitempty"`  // input bytes
 	Opts string `json:"opts,omitempty"` // parse options (model syntax)
 	Tree string `json:"tree,omitempty"` // field tree (model syntax)
@@ -132,6 +132,8 @@ func Run(c *vh.Ctx) {
 	r.flush()
 	r.jsonLayer()
 	r.flush()
+	r.numberLayer()
+	r.flush()
 	c.Res.Exhaustive = true
 	c.Res.ExhaustiveWhat = "all 256 single bytes and all 65536 byte pairs through every byte codec (encoders and decoders), the wire primitives and the wire parser under " + fmt.Sprint(len(pairOpts)) + " option sets"
 	c.Res.ModelLines = modelLines(r.m)
@@ -177,6 +179,8 @@ func (r *runner) replay(cas Case) {
 		r.replaySer(cas)
 	case "json":
 		r.replayJSON(cas)
+	case "jsonnum":
+		r.replayNum(cas)
 	case "known":
 		r.knownStream()
 	default:
